@@ -126,7 +126,40 @@ def digest_summary(interp, args, kwargs):
     return Opaque("UUID", attrs={"$digest_args": (tuple(args), tuple(sorted(kwargs.items())))})
 
 
+HOS = "location.location_impl.SingleInterval._has_overlap_single_interval"
+
+
+def has_overlap_single_summary(interp, args, kwargs):
+    """Contract of SingleInterval._has_overlap_single_interval(other: SingleInterval), proved for the real body by
+    c02_single.OverlapCore: the result is the truth value of  max(s, os) < min(e, oe)  (which implies that both
+    intervals are non-empty).  Used (opt-in, per case) so that the four-way comparison cascade of the body does not
+    fork the caller's path: one symbolic boolean instead of up to five paths with the same value.
+    Anything but two SingleIntervals runs the real body."""
+    import z3
+    from pyvc.symex_eval import sym_min, sym_max
+    selfv, other = args[0], args[1]
+    if (len(args) != 2 or kwargs or not isinstance(other, Obj) or other.cls.name != "SingleInterval"
+            or not isinstance(selfv, Obj) or selfv.cls.name != "SingleInterval"):
+        f = interp.repo.find(HOS)
+        saved = interp.summaries.pop(HOS)
+        try:
+            return interp.call_function(FuncVal(f), list(args), kwargs)
+        finally:
+            interp.summaries[HOS] = saved
+    s, e, os_, oe = selfv.attrs["start"], selfv.attrs["end"], other.attrs["start"], other.attrs["end"]
+    r = sym_max(s, os_) < sym_min(e, oe)
+    if isinstance(r, bool):
+        return r
+    r = z3.simplify(r)
+    if z3.is_true(r):
+        return True
+    if z3.is_false(r):
+        return False
+    return r
+
+
 SUMMARIES = {
+    HOS: has_overlap_single_summary,
     "util.bins.bins": bins_summary,
     "util.hashing.digest_object": digest_summary,
     "sequence.sequence.Sequence.validate_alphabet": validate_alphabet,
@@ -206,6 +239,6 @@ EXTERNALS = {"Bio.Seq.Seq": bio_seq, "re.compile": _re_compile, "re.match": _re_
              "collections.defaultdict": _defaultdict}
 EXTERNAL_CONSTS = {"string.punctuation": _string.punctuation, "re.IGNORECASE": int(_re.IGNORECASE),
                    "re.I": int(_re.IGNORECASE)}
-DEFAULT = ["util.bins.bins", "util.hashing.digest_object", "sequence.sequence.Sequence.validate_alphabet", "parent.make_parent", "location.location_impl.EmptyLocation"]
+DEFAULT = [HOS, "util.bins.bins", "util.hashing.digest_object", "sequence.sequence.Sequence.validate_alphabet", "parent.make_parent", "location.location_impl.EmptyLocation"]
 LIB = {"default": DEFAULT, "summaries": SUMMARIES, "loops": LOOPS, "attr_hooks": {}, "externals": EXTERNALS,
        "external_consts": EXTERNAL_CONSTS}
